@@ -153,7 +153,94 @@ def _policy(loop: ast.For, fn: FuncInfo):
     return excluded, decide, target_obj, store
 
 
+def _summary(m) -> Dict[str, object]:
+    """What a model says about itself, by identifiers (to compare the copy with the original)."""
+    out: Dict[str, object] = {}
+    for kind in ("metabolites", "genes", "reactions", "groups"):
+        out[kind] = [x.id for x in getattr(m, kind)]
+        for x in getattr(m, kind):
+            for a, v in sorted(x.__dict__.items()):
+                if a in ("_model",):
+                    out[f"{kind}/{x.id}.{a}"] = "own model" if v is m else repr(v)
+                elif a == "_metabolites":
+                    out[f"{kind}/{x.id}.{a}"] = sorted((k.id, c) for k, c in v.items())
+                elif a in ("_genes", "_reaction", "_members"):
+                    out[f"{kind}/{x.id}.{a}"] = sorted(f"{type(k).__name__}:{k.id}" for k in v)
+                elif a == "_gpr":
+                    out[f"{kind}/{x.id}.{a}"] = sorted(v.genes) if v is not None else None
+                else:
+                    out[f"{kind}/{x.id}.{a}"] = repr(v)
+    for a, v in sorted(m.__dict__.items()):
+        if a not in ("metabolites", "genes", "reactions", "groups", "_contexts", "_solver"):
+            out[f"model.{a}"] = repr(v)
+    return out
+
+
+def check_copy_graph(ctx) -> bool:
+    """Model.copy evaluated on a stand-in object graph (rules/copyform.py): no mutable object is reachable from both
+    the original and the copy, the copy says the same as the original, its context stack is its own and empty before
+    context-aware code runs on it, and the solver is a copy."""
+    from . import copyform
+
+    fn = ctx.prog.func("cobra.core.model", "Model.copy")
+    before = None
+    orig, new, err, classes = copyform.evaluate_copy(ctx)
+    if err or new is None:
+        ctx.bad("C12.fresh", fn, fn.node, f"Model.copy on a model with metabolites, genes, reactions and nested groups {err or 'returns nothing'}")
+        return True
+    if not isinstance(new, classes["Model"]) or new is orig:
+        ctx.bad("C12.fresh", fn, fn.node, "Model.copy does not return a new model object")
+        return True
+    a, b = copyform.reachable(orig, "original"), copyform.reachable(new, "copy")
+    shared = sorted((b[k][1], a[k][1], a[k][0]) for k in set(a) & set(b))
+    for in_copy, in_orig, obj in shared[:4]:
+        if isinstance(obj, classes["Object"]):
+            ctx.bad("C12.foreign", fn, fn.node, f"an object of the original model is reachable from the copy: {in_copy} is {in_orig} ({obj!r}); changing it through the copy changes the original")
+        else:
+            ctx.bad("C12.fresh", fn, fn.node, f"{in_copy} is the very object {in_orig} (a mutable {type(obj).__name__.lstrip('_')}): changing it through the copy changes the original")
+    if not shared:
+        ctx.ok("C12.fresh", fn, "object graph", f"no mutable object is reachable from both the original ({len(a)} objects) and the copy ({len(b)} objects) (evaluated)")
+        ctx.ok("C12.foreign", fn, "object graph", "every cross-reference of the copy points to an object of the copy (evaluated)")
+    # fresh() yields a second, untouched original to compare with
+    ref, attrs = copyform.build_classes(ctx.prog)
+    pristine = _summary(copyform.build_model(ref, attrs))
+    now, cp = _summary(orig), _summary(new)
+    for what, got in (("the original after copy()", now), ("the copy", cp)):
+        diff = [k for k in sorted(set(pristine) | set(got)) if pristine.get(k) != got.get(k)]
+        if diff:
+            k = diff[0]
+            ctx.bad("C12.fresh", fn, fn.node, f"{what} differs from the model that was copied: {k} is {got.get(k)!r}, was {pristine.get(k)!r}" + (f" (+{len(diff) - 1} more)" if len(diff) > 1 else ""))
+        else:
+            ctx.ok("C12.fresh", fn, what, f"{what} says the same as the model that was copied ({len(pristine)} facts, evaluated)", nontrivial=False)
+    # context stack and solver
+    if new.__dict__.get("_contexts") != [] or new._contexts is orig._contexts:
+        ctx.bad("C12.context", fn, fn.node, "the copy keeps the original's context stack: contexts opened on one model record changes of the other")
+    elif classes["Object"].aware_calls:
+        ctx.bad("C12.context", fn, fn.node, "context-aware code runs on objects of the copy while the copy still shares the original's context stack (" + classes["Object"].aware_calls[0] + "): a copy taken inside `with model:` records undo entries in the original's context")
+    else:
+        ctx.ok("C12.context", fn, "contexts", "the copy has its own empty context stack before context-aware code runs on it (evaluated)")
+    if orig._contexts != ["<an open context of the original>"]:
+        ctx.bad("C12.context", fn, fn.node, "Model.copy changes the context stack of the original")
+    if not isinstance(new.__dict__.get("_solver"), copyform._Solver) or new._solver is orig._solver or new._solver.of not in ("deep copy", "copy"):
+        ctx.bad("C12.fresh", fn, fn.node, "the copy's solver is not a copy of the original's solver (it is shared or built anew): the copy does not carry the solver-side constraints and variables, or shares them")
+    else:
+        ctx.ok("C12.fresh", fn, "solver", "the copy's solver is a copy of the original's (evaluated)")
+    return True
+
+
 def check_fresh(ctx) -> None:
+    prog, inf = ctx.prog, ctx.inf
+    fn = prog.func("cobra.core.model", "Model.copy")
+    check_copy_graph(ctx)
+    # the per-attribute reading below needs the familiar form of the function (five `for ... in X.__dict__` loops in
+    # Model.copy itself); any other spelling is decided by the evaluated clause above alone
+    try:
+        _check_fresh_shape(ctx)
+    except AnalysisError as exc:
+        ctx.note(f"C12.fresh: per-attribute reading skipped ({exc}); Model.copy is decided by the evaluated object-graph clause")
+
+
+def _check_fresh_shape(ctx) -> None:
     prog, inf = ctx.prog, ctx.inf
     fn = prog.func("cobra.core.model", "Model.copy")
     loops = []
@@ -453,10 +540,16 @@ def check_foreign_copy_guard(ctx) -> None:
                         return self_model
                 return NotImplemented
 
+            def on_call(ev, c: ast.Call):
+                # the cases range over Metabolite objects: isinstance(<the metabolite>, Metabolite) holds
+                if isinstance(c.func, ast.Name) and c.func.id == "isinstance" and len(c.args) == 2 and norm(c.args[0]) == var and norm(c.args[1]).split(".")[-1] == "Metabolite":
+                    return True
+                return NotImplemented
+
             taken = True
             for gd in guards:
                 try:
-                    t = Evaluator({}, on_attr=on_attr).truth(gd.test)
+                    t = Evaluator({}, on_call=on_call, on_attr=on_attr).truth(gd.test)
                 except (Unknown, EvalRaise) as exc:
                     raise AnalysisError(f"C12.detach: cannot evaluate the copy guard of add_metabolites: {exc}")
                 taken = taken and bool(t)
